@@ -344,7 +344,7 @@ impl Explorer {
     fn report(&mut self, v: &Vio, hist: &[Op], extra: &str) {
         let replay = format!(
             "{{\"engine\":\"hmc\",\"parity\":\"{}\",\"profile\":\"{}\",\"history\":{}{}}}",
-            if self.cfg.parity_odd { "odd" } else { "even" },
+            if oracle::is_adjacent() { "adjacent" } else if self.cfg.parity_odd { "odd" } else { "even" },
             if cfg!(debug_assertions) { "dbg" } else { "rel" },
             hist_json(hist),
             extra
